@@ -364,7 +364,37 @@ func init() {
 	}, "fmt.Sprint", "fmt.Sprintln")
 	reg(func(it *Interp, fn *ssa.Function, args []Value, site ssa.Instruction) Value {
 		return Tuple{uint64(0), Iface{}}
-	}, "fmt.Printf", "fmt.Println", "fmt.Print", "fmt.Fprintf", "fmt.Fprintln", "fmt.Fprint")
+	}, "fmt.Printf", "fmt.Println", "fmt.Print")
+	// Fprint*: format on the host (concrete operands only) and hand the bytes to the writer's Write method.
+	reg(func(it *Interp, fn *ssa.Function, args []Value, site ssa.Instruction) Value {
+		w, _ := args[0].(Iface)
+		if w.t == nil || strings.HasSuffix(w.t.String(), "os.File") {
+			return Tuple{uint64(0), Iface{}}
+		}
+		var s Value
+		switch fn.Name() {
+		case "Fprintf":
+			s = it.sprintf(args[1], args[2])
+		case "Fprintln":
+			s = it.sprint(args[1], true)
+		default:
+			s = it.sprint(args[1], false)
+		}
+		str, ok := s.(string)
+		if !ok || strings.Contains(str, "<sym>") || strings.Contains(str, "<symbolic") {
+			panic(unsupported("fmt.Fprint* of a symbolic value into a writer"))
+		}
+		wf := it.errMethod(w, "Write")
+		if wf == nil {
+			panic(unsupported("fmt.Fprint*: writer without Write method"))
+		}
+		b, o, n := strToBuf(str)
+		r := it.callFunction(wf, []Value{w.v, NumSlice{buf: b, off: o, len: n, cap: n, esz: 1}}, nil, site)
+		if t, ok := r.(Tuple); ok {
+			return t
+		}
+		return Tuple{uint64(n), Iface{}}
+	}, "fmt.Fprintf", "fmt.Fprintln", "fmt.Fprint")
 
 	// ---- bytealg ----
 	reg(func(it *Interp, fn *ssa.Function, args []Value, site ssa.Instruction) Value {
